@@ -974,6 +974,9 @@ func ruleStatusWriters(r *core.Reporter) {
 	allowedWriters := map[string]bool{
 		"pkg/models.(*Item).SetStatus": true, "pkg/models.(*Item).AddChild": true, "pkg/models.markCompleted": true, "pkg/models.NewItem": true,
 	}
+	for n := range allowedWriters {
+		allowedWriters[p.CurrentName(n)] = true // follows pure renames
+	}
 	writers := map[string]int{}
 	for _, fn := range p.ModFuncs {
 		allInstrs(fn, func(in ssa.Instruction) {
